@@ -155,7 +155,10 @@ def run(ctx):
         mask = _mask(rng, ms, score)
         tmask = np.ones(ns) if score == "MCC" else None
         R = np.eye(nd)[None]
-        c1, c2, off = float(rng.choice([0.5, 2.0, 7.0, 100.0])), float(rng.choice([0.25, 3.0, 50.0])), float(rng.choice([-3.0, 1.0, 20.0]))
+        # every score meets every scale (small absolute intensities move windows towards the eps guard)
+        c1 = [0.5, 2.0, 1e-3, 100.0, 7.0][(it // 5) % 5]
+        c2 = [1e-4, 3.0, 1e3, 0.25, 50.0][(it // 5) % 5]
+        off = float(rng.choice([-3.0, 1.0, 20.0]))
         base, _, _, _ = _scan(score, target, template, mask, tmask, R, double)
         s_t, _, _, _ = _scan(score, target, template * c1, mask, tmask, R, double)
         s_o, _, _, _ = _scan(score, target, template + off, mask, tmask, R, double)
@@ -202,9 +205,18 @@ def run(ctx):
         sl = tuple(slice(pi - m // 2, pi - m // 2 + m) for pi in p)
         target[sl] = gR
         tmask = np.ones(ns) if score == "MCC" else None
-        sc, rot_ids, table, fp = _scan(score, target, template, mask, tmask, R, double)
+        njobs = 2 if it % 4 == 1 else 1       # rotations spread over two inner jobs and merged
+        S.set_precision(double)
+        try:
+            res, fp = S.run_scan(score, target, template, mask=mask, target_mask=tmask, rotations=R, pad=True, order=1,
+                                 dtype=np.float64 if double else np.float32, n_jobs=njobs)
+        finally:
+            S.set_precision(False)
+        sc = np.asarray(res[0], np.float64).copy()
+        sc[sc <= SENTINEL / 2] = np.nan
+        rot_ids, table = np.asarray(res[2]), dict(res[3])
         tau = TAU[double]
-        inp = {"score": score, "ns": ns, "ms": ms, "planted_at": p, "border": border, "rotation": {"perm": perm, "flip": flip},
+        inp = {"score": score, "ns": ns, "ms": ms, "planted_at": p, "n_jobs": njobs, "border": border, "rotation": {"perm": perm, "flip": flip},
                "n_rot": int(len(sel)), "double": double, "mask_full": bool(mask.all())}
         best = np.unravel_index(int(np.nanargmax(sc)), sc.shape)
         okpos = [int(x) for x in best] == p or abs(sc[tuple(p)] - np.nanmax(sc)) <= tau
